@@ -41,9 +41,11 @@ Record state := mkSt {
   pools : amap Z pool;                (* pool id "farm-n" is n *)
   queue : list (Z * Z);               (* active-pool queue: (end height, pool id) *)
   seq : Z;
-  bank : ledger }.
+  bank : ledger;
+  cfee : Z;                           (* params: pool creation fee (amount of STAKE) *)
+  trate : dec }.                      (* params: tax rate *)
 
-Definition init (b : ledger) (h : Z) : state := mkSt h [] [] 0 b.
+Definition init (b : ledger) (h : Z) : state := mkSt h [] [] 0 b creation_fee tax_rate.
 
 (** ** small helpers *)
 Definition with_rules (p : pool) (rs : list rule) : pool :=
@@ -55,9 +57,9 @@ Definition with_locked (p : pool) (x : Z) : pool :=
 Definition with_end (p : pool) (e : Z) : pool :=
   mkPool (p_creator p) (p_start p) e (p_last p) (p_lpt p) (p_locked p) (p_edit p) (p_rules p) (p_farmers p).
 
-Definition with_pools (s : state) (ps : amap Z pool) : state := mkSt (height s) ps (queue s) (seq s) (bank s).
-Definition with_bank (s : state) (b : ledger) : state := mkSt (height s) (pools s) (queue s) (seq s) b.
-Definition with_queue (s : state) (q : list (Z * Z)) : state := mkSt (height s) (pools s) q (seq s) (bank s).
+Definition with_pools (s : state) (ps : amap Z pool) : state := mkSt (height s) ps (queue s) (seq s) (bank s) (cfee s) (trate s).
+Definition with_bank (s : state) (b : ledger) : state := mkSt (height s) (pools s) (queue s) (seq s) b (cfee s) (trate s).
+Definition with_queue (s : state) (q : list (Z * Z)) : state := mkSt (height s) (pools s) q (seq s) (bank s) (cfee s) (trate s).
 
 (** remove the first binding of [k] only (keys are unique in every reachable state) *)
 Fixpoint del1 {V} (k : Z) (m : amap Z V) : amap Z V :=
@@ -175,7 +177,8 @@ Inductive msg :=
 | Unstake (who : acct) (pid : Z) (d : denom) (amt : Z)
 | Harvest (who : acct) (pid : Z)
 | Adjust (who : acct) (pid : Z) (add : list (denom * Z)) (rpb : list (denom * Z))    (* [] = nil *)
-| Destroy (who : acct) (pid : Z).
+| Destroy (who : acct) (pid : Z)
+| UpdateParams (who : acct) (cf : Z) (tr : dec).   (* MsgUpdateParams: creation fee amount and tax rate *)
 
 Inductive result :=
 | Done (s : state) (rewards : list (denom * Z))
@@ -188,14 +191,14 @@ Fixpoint sorted_strict (l : list Z) : bool :=
   end.
 
 (** fees.go DeductPoolCreationFee *)
-Definition deduct_fee (b : ledger) (who : acct) : option ledger :=
-  let tax := dec_truncate_int (dec_mul (dec_of_int creation_fee) tax_rate) in
-  match send b who FARM STAKE creation_fee with
+Definition deduct_fee (cf : Z) (tr : dec) (b : ledger) (who : acct) : option ledger :=
+  let tax := dec_truncate_int (dec_mul (dec_of_int cf) tr) in
+  match send b who FARM STAKE cf with
   | None => None
   | Some b1 =>
     match send b1 FARM FEEC STAKE tax with
     | None => None
-    | Some b2 => send b2 FARM BURN STAKE (creation_fee - tax)
+    | Some b2 => send b2 FARM BURN STAKE (cf - tax)
     end
   end.
 
@@ -217,7 +220,7 @@ Definition create_pool (s : state) (who : acct) (lpt : denom) (start : Z) (edita
   else if start <? height s then Fail Rej
   else if max_categories <? Z.of_nat (length rules) then Fail Rej
   else if negb (valid_lpt lpt) then Fail Rej
-  else match deduct_fee (bank s) who with
+  else match deduct_fee (cfee s) (trate s) (bank s) who with
   | None => Fail Rej
   | Some b1 =>
     match send_many b1 who FARM (map (fun '(d, t, _) => (d, t)) rules) with
@@ -230,7 +233,7 @@ Definition create_pool (s : state) (who : acct) (lpt : denom) (start : Z) (edita
       | Some iv =>
         let e := start + iv in
         let p := mkPool who start e 0 lpt 0 editable rs [] in
-        Done (mkSt (height s) (set id p (pools s)) (enqueue (queue s) (e, id)) id b2) []
+        Done (mkSt (height s) (set id p (pools s)) (enqueue (queue s) (e, id)) id b2 (cfee s) (trate s)) []
       end
     end
   end.
@@ -415,11 +418,19 @@ Definition adjust (s : state) (who : acct) (pid : Z) (add rpb : list (denom * Z)
             if e =? p_end p1 then Done (with_bank (with_pools s (set pid p2 (pools s))) b2) []
             else
               let q := enqueue (dequeue (queue s) (p_end p1, pid)) (e, pid) in
-              Done (mkSt (height s) (set pid (with_end p2 e) (pools s)) q (seq s) b2) []
+              Done (mkSt (height s) (set pid (with_end p2 e) (pools s)) q (seq s) b2 (cfee s) (trate s)) []
           end
         end
       end
   end.
+
+(** msg_server.go UpdateParams: the authority only; Params.Validate: fee a valid coin of at most 255 bits, 0 < tax < 1.
+    Nothing but the parameters changes; they only enter [deduct_fee]. *)
+Definition AUTH : acct := 104.
+Definition update_params (s : state) (who : acct) (cf : Z) (tr : dec) : result :=
+  if negb (who =? AUTH) then Fail Rej
+  else if (cf <? 0) || (2 ^ 255 <=? cf) || (tr <=? 0) || (P18 <=? tr) then Fail Rej
+  else Done (mkSt (height s) (pools s) (queue s) (seq s) (bank s) cf tr) [].
 
 Definition exec_msg (s : state) (m : msg) : result :=
   match m with
@@ -429,6 +440,7 @@ Definition exec_msg (s : state) (m : msg) : result :=
   | Harvest who pid => harvest s who pid
   | Adjust who pid add rpb => adjust s who pid add rpb
   | Destroy who pid => destroy s who pid
+  | UpdateParams who cf tr => update_params s who cf tr
   end.
 
 (** abci.go EndBlocker: every queue entry of the current height, in key order *)
@@ -456,7 +468,7 @@ Definition exec_step (s : state) (st : step) : state * outcome * list (denom * Z
              | Fail o => (s, o, [])
              end
   | NextBlock => let s' := end_block s in
-                 (mkSt (height s' + 1) (pools s') (queue s') (seq s') (bank s'), Ok, [])
+                 (mkSt (height s' + 1) (pools s') (queue s') (seq s') (bank s') (cfee s') (trate s'), Ok, [])
   end.
 
 Definition step_state (s : state) (st : step) : state := fst (fst (exec_step s st)).
